@@ -536,4 +536,36 @@ Module Examples.
          EFull [None] [None] [Some (100, 10, (0%N, [(60, 5)]), 120)] [EvEnforced PL 1%N 1%N 0 60 60]) ]).
   Example per_token_rejected : mon per_token = 3%N.
   Proof. vm_compute. reflexivity. Qed.
+  (* ---- hardening round (situation classes K1, K2, K5) ---- *)
+  (* K1: an entry is created for the policy contract's own address (account 6) with no authorisation at all *)
+  Definition hk : hdr := mkhdr 1000 5 [(6%N, 0%N); (1%N, 0%N); (1%N, 1%N)] [0%N; 1%N; 2%N].
+  Definition K1a : trace := (hk,
+    [ (SSetThreshold [] 6%N 0%N [0%N] 1, Ok RUnit, EFull [Some 1; None; None] [None; None; None] [None; None; None] []) ]).
+  Example K1a_rejected : mon K1a = 1%N.
+  Proof. vm_compute. reflexivity. Qed.
+  (* K1 / K5: a transfer whose token contract is the account itself (token 4 = account 1 in the harness) is let
+     through although it does not fit: the monitor does not look at the parties of the context *)
+  Definition K1b : trace := (h1,
+    [ L0;
+      (CanEnforce PL 1%N 1%N (CContract 4%N 0%N [AOther; AOther; AI128 101]) [0%N], Ok (RBool true), ESame []) ]).
+  Example K1b_rejected : mon K1b = 2%N.
+  Proof. vm_compute. reflexivity. Qed.
+  (* ... nor does it accept that such a transfer is enforced without being counted *)
+  Definition K1c : trace := (h1,
+    [ L0;
+      (Enforce PL [1%N] 1%N 1%N [CContract 3%N 0%N [AOther; AOther; AI128 60]] [0%N], Ok RUnit, ESame []) ]).
+  Example K1c_rejected : mon K1c = 2%N.
+  Proof. vm_compute. reflexivity. Qed.
+  (* K2: rule ids 0 and 1 share one entry: an installation for rule 0 shows up under rule 1 as well *)
+  Definition K2a : trace := (hk,
+    [ (LInstall [1%N] 1%N 0%N 100 10, Ok RUnit,
+         EFull [None; None; None] [None; None; None] [None; Some (100, 10, (0%N, []), 0); Some (100, 10, (0%N, []), 0)] []) ]).
+  Example K2a_rejected : mon K2a = 1%N.
+  Proof. vm_compute. reflexivity. Qed.
+  (* K2: a signer with a degenerate key is not counted (signer 2 here): 3-of-3 refused with all three present *)
+  Definition K2b : trace := (h1,
+    [ (SInstall [1%N] 1%N 1%N [0%N; 1%N; 2%N] 3, Ok RUnit, EFull [Some 3] [None] [None] []);
+      (CanEnforce PS 1%N 1%N (tr 1) [0%N; 1%N; 2%N], Ok (RBool false), ESame []) ]).
+  Example K2b_rejected : mon K2b = 2%N.
+  Proof. vm_compute. reflexivity. Qed.
 End Examples.
